@@ -60,6 +60,14 @@ M*.,m1
 %l1,::/0,m1
 `
 
+// a root zone without wildcards: names directly under the root do not exist
+const c13RootPlain = `.,192.0.2.53,a.ns.root-servers.example
++a,192.0.2.1
+&com,192.0.2.54,a.ns.com
+'txt,root child
++localhost,127.0.0.1
+`
+
 const c13RootDeleg = `&,192.0.2.53,a.ns.example.com
 &,,b.ns.example.com
 +a.ns.example.com,192.0.2.60
@@ -78,8 +86,42 @@ var (
 	c13Err  error
 )
 
+// c13MaxName extends base (presentation form, trailing dot) with labels on
+// the left up to exactly wire octets on the wire (255 is the protocol maximum).
+func c13MaxName(base string, wire int) string {
+	r := wire - (len(base) + 1)
+	if base == "." {
+		r = wire - 1
+	}
+	var labels []string
+	for i := 0; r > 1; i++ {
+		l := r - 1
+		if l > 63 {
+			l = 63
+		}
+		if r-(l+1) == 1 {
+			l--
+		}
+		labels = append(labels, strings.Repeat(string(rune('a'+i%26)), l))
+		r -= l + 1
+	}
+	if len(labels) == 0 {
+		return base
+	}
+	if base == "." {
+		return strings.Join(labels, ".") + "."
+	}
+	return strings.Join(labels, ".") + "." + base
+}
+
 func bigRRset() string {
 	var sb strings.Builder
+	// NS and MX targets of maximum length, a wildcard HTTPS record in alias form
+	// (the additional-section lookup then uses the queried name itself)
+	fmt.Fprintf(&sb, "@longmx.example.com,,%s,10\n", strings.TrimSuffix(c13MaxName("t.example.com.", 255), "."))
+	fmt.Fprintf(&sb, "&longns.example.com,,%s\n", strings.TrimSuffix(c13MaxName("t.example.com.", 255), "."))
+	fmt.Fprintf(&sb, "+%s,192.0.2.88\n", strings.TrimSuffix(c13MaxName("t.example.com.", 255), "."))
+	sb.WriteString("H*.hw.example.com,.,300,,1,alpn=h2\n+*.hw.example.com,192.0.2.89\n")
 	for i := 0; i < 40; i++ {
 		fmt.Fprintf(&sb, "'big.example.com,%s-%02d,30\n", strings.Repeat("x", 100), i)
 		fmt.Fprintf(&sb, "&manyns.example.com,192.0.2.%d,ns%d.manyns.example.com\n", i+100, i)
@@ -89,7 +131,7 @@ func bigRRset() string {
 
 func c13Setup() {
 	texts := []struct{ name, text string }{
-		{"normal", c13Normal + bigRRset()}, {"rootzone", c13RootZone}, {"rootdeleg", c13RootDeleg}, {"empty", ""},
+		{"normal", c13Normal + bigRRset()}, {"rootzone", c13RootZone}, {"rootplain", c13RootPlain}, {"rootdeleg", c13RootDeleg}, {"empty", ""},
 	}
 	for _, tx := range texts {
 		dir := kit.Scratch("c13-" + tx.name)
@@ -130,7 +172,7 @@ type c13Case struct {
 
 var c13Names = []string{".", "com.", "example.com.", "www.example.com.", "WWW.Example.COM.", "x.wild.example.com.", "a!b.wild.example.com.", "sub.example.com.", "deep.er.sub.example.com.",
 	"child.example.com.", "x.child.example.com.", "nope.example.com.", "big.example.com.", "manyns.example.com.", "x.manyns.example.com.", "svc.example.com.", "alias.example.com.", "x.cn.example.com.", "a.", "txt.", "zz.", "a.ns.example.com.",
-	"other.net.", "1.2.0.192.in-addr.arpa.", "net."}
+	"other.net.", "1.2.0.192.in-addr.arpa.", "net.", "hw.example.com.", "longmx.example.com.", "longns.example.com.", "x.longns.example.com.", "t.example.com.", "localhost.", "nosuchtld."}
 
 func genC13Name(t *rapid.T) string {
 	switch rapid.IntRange(0, 9).Draw(t, "namekind") {
@@ -154,6 +196,8 @@ func genC13Name(t *rapid.T) string {
 			fmt.Fprintf(&sb, "\\%03d", c)
 		}
 		return sb.String() + "." + rapid.SampledFrom(c13Names).Draw(t, "binbase")
+	case 3: // exactly (or just below) the maximum of 255 octets on the wire
+		return c13MaxName(rapid.SampledFrom(c13Names).Draw(t, "maxbase"), rapid.SampledFrom([]int{255, 255, 254, 253, 200}).Draw(t, "maxwire"))
 	case 2:
 		return rapid.SampledFrom([]string{"a", "*", "_x", "x-1", "0"}).Draw(t, "pre") + "." + rapid.SampledFrom(c13Names).Draw(t, "prebase")
 	default:
@@ -448,5 +492,11 @@ func c13SeedMsgs() []*dns.Msg {
 		mk("big.example.com.", dns.TypeTXT, func(m *dns.Msg) { m.SetEdns0(1232, false) }),
 		mk("x.manyns.example.com.", dns.TypeA, nil),
 		mk("www.example.com.", dns.TypeA, func(m *dns.Msg) { m.SetEdns0(4096, false); m.IsEdns0().SetVersion(1) }),
+		mk(c13MaxName("example.com.", 255), dns.TypeA, nil),
+		mk(c13MaxName("hw.example.com.", 255), dns.TypeHTTPS, nil),
+		mk(c13MaxName(".", 255), dns.TypeA, nil),
+		mk("longmx.example.com.", dns.TypeMX, nil),
+		mk("x.longns.example.com.", dns.TypeA, nil),
+		mk("nosuchtld.", dns.TypeA, nil),
 	}
 }
